@@ -40,7 +40,7 @@ def replay_kani(ob, r, ctx):
     if r.engine == 'K-model':
         info = engines.prepare_unit(ob.unit, ob.extract_fn)
         crate = info['crate']
-        tdir = os.path.join(vlib.scratch(), 'kt', '%s-%s%s' % (ob.unit, ob.harness, '-f' if getattr(ob, 'rustflags', None) else ''))
+        tdir = os.path.join(vlib.scratch(), 'kt', '%s-%s%s' % (ob.unit.replace(':', '-'), ob.harness, '-f' if getattr(ob, 'rustflags', None) else ''))
         cmd = 'cd %s && cargo kani --harness %s --target-dir %s -Z concrete-playback --concrete-playback=inplace' % (crate, ob.harness, tdir) + ('' if getattr(ob, 'field_sensitivity', False) else engines.CBMC_ARGS)
         stub = ''
     else:
@@ -69,7 +69,7 @@ def replay_kani(ob, r, ctx):
     ok_any = False
     body += ['--- concrete playback unit tests (inserted into the scratch copy of the harness crate) ---', playback_sources(crate), '']
     # all generated tests in ONE native run (a failing check and the cover witnesses each get a test; only the former panic)
-    rc2, out2, _ = run('cd %s && cargo kani playback -Z concrete-playback -- kani_concrete_playback' % crate, timeout=1500, mem_gb=16)
+    rc2, out2, _ = run('cd %s && cargo kani playback -Z concrete-playback -- kani_concrete_playback' % crate, timeout=1500, mem_gb=16, env=env)   # env: the unit's --cfg flags
     failed_tests = re.findall(r'^test (\S*kani_concrete_playback_\w+) \.\.\. FAILED', out2, flags=re.M)
     passed_tests = re.findall(r'^test (\S*kani_concrete_playback_\w+) \.\.\. ok', out2, flags=re.M)
     msg = re.findall(r"panicked at [^\n]*\n[^\n]*", out2)
